@@ -170,7 +170,49 @@ PROPS = {
                      "`step returns the reward emitted for that step` (SingleJobShopGraphEnv.step) is decided by the "
                      "bounded run (C18 harness); RewardObserver.last_reward is proved to return the last emitted reward"],
     ),
-    "C03": dict(level="exploration", functions=[], lemmas=[], tierb=True),
+    "C03": dict(
+        level="proof",
+        functions=["ORToolsSolver.solve", "ORToolsSolver.__call__", "ORToolsSolver._initialize_model",
+                   "ORToolsSolver._create_variables", "ORToolsSolver._add_constraints", "ORToolsSolver._add_job_constraints",
+                   "ORToolsSolver._add_machine_constraints", "ORToolsSolver._set_objective", "ORToolsSolver._create_schedule",
+                   "Schedule.__init__", "Schedule.check_schedule", "Schedule._is_valid_start_time",
+                   "ScheduledOperation.__init__", "ScheduledOperation.end_time", "ScheduledOperation.machine_id",
+                   "Operation.machine_id", "JobShopInstance.total_duration", "JobShopInstance.job_durations"],
+        lemmas=[],
+        tierb=True,
+        trusted=["OR-Tools CP-SAT through the contracts of contracts/cpsat.py: CpModel() is empty; NewIntVar / NewIntervalVar create "
+                 "new variables / intervals with the given bounds / (start, size, end); `v == w + c` and `v <= w` build the "
+                 "constraint expression of that meaning and model.Add appends exactly it; AddNoOverlap, AddMaxEquality, Minimize "
+                 "append / set what their names say (ghost constraint store: a sequence of records); CpSolver.Solve returns a "
+                 "status, and when that is OPTIMAL or FEASIBLE the values Value(v) satisfy every record of the store and all "
+                 "variable bounds; search parameters (time limit, logging) do not change what a reported solution satisfies",
+                 "NOT provable here and trusted as a sentence: when Solve reports OPTIMAL no assignment satisfying the store has a "
+                 "smaller objective, and without a time limit CP-SAT reports OPTIMAL on a satisfiable model (compared with brute "
+                 "force, dispatching rules and lower bounds by the bounded run)",
+                 "the textbook equivalence `assignments satisfying the disjunctive model = feasible schedules of the instance` "
+                 "is used in one direction only, and that direction is proved: the schedule reconstructed from a solution is "
+                 "complete, job-ordered, machine-disjoint and accepted by Schedule's validation",
+                 "ghost witnesses (iv_pos / iv_op, mo_pos / mo_op, us_pos / us_op, sch_pos, no_list: inverse index maps), "
+                 "prophecy variable $no_solution resolved at the Solve call, consequences by induction of the prefix sums cumL "
+                 "(monotone, cumL(j) >= j, index order) stated as pre-conditions",
+                 "sorted(key=...) returns a permutation of its argument ordered by the key (stability not modelled); a dict "
+                 "keyed by the operations of one instance is keyed by identity (operations of an instance are pairwise unequal)"],
+        assumptions=[A_VALID, "non-flexible instance (every operation has exactly one machine): the property's own quantifier; "
+                     "operations numbered by JobShopInstance (job_id, position_in_job)",
+                     "proved, for every valid non-flexible instance (zero durations included): solve() builds a NEW model, solver "
+                     "and variable map; at the moment CpSolver.Solve is called its argument contains exactly: two variables in "
+                     "[0, total duration] per operation with end == start + duration, end(pred) <= start(succ) for every "
+                     "successive pair of a job, one no-overlap constraint per machine over exactly the intervals (start, "
+                     "duration, end) of that machine's operations, makespan variable in [0, total duration] == max of all end "
+                     "variables, minimised -- 2N - J + M + 1 constraints and 2N + 1 variables, nothing else; NoSolutionFoundError "
+                     "is raised exactly when Solve reports neither OPTIMAL nor FEASIBLE and no other exception escapes (in "
+                     "particular Schedule's validation cannot reject the reconstructed schedule: the sort key orders equal "
+                     "start times by end time); the returned schedule places every operation exactly once, on its machine, at "
+                     "the solution value of its start variable, machine lists in time order without overlap, job order respected, "
+                     "no negative start; the makespan put into the metadata is the latest end of the schedule",
+                     "bounded only: optimality itself (see trusted), the metadata dictionary of the Schedule object, reuse of one "
+                     "solver object across solves as an end-to-end run, benchmark lower bounds, ORToolsSolver.__init__"],
+    ),
     "C04": dict(
         level="proof",
         functions=["lemma_unfinished_job", "DispatchingRuleSolver.step", "DispatchingRuleSolver.solve",
